@@ -136,4 +136,6 @@ inline std::vector<L3> grid (const FSpec& F)
 
 void run_core ();
 void run_frustumtest ();
+void run_cameras2 ();  // c16_c.cpp
+void run_history ();   // c16_d.cpp
 } // namespace c16
